@@ -127,7 +127,18 @@ def gen_tags_case(rng, tier):
     if len(samples) == 1 and rng.random() < 0.15:
         popts["ignore_read_groups"] = True
     ops.append({"op": "haplotagphase", "opts": popts})
-    return {"machine": "tags", "world": W.clean_world(w), "ops": ops, "knobs": {"depth": depth, "kinds": kinds, "bx_cutoff": bx_cutoff}}
+    shared_names = False
+    if len(chroms) > 1 and rng.random() < 0.2:
+        # read names are reused from chromosome to chromosome (per-chromosome numbering, or templates whose mates map to
+        # different chromosomes): a read's tags belong to the alignment record, not to its name
+        shared_names = True
+        serial = {}
+        for r in w["libs"]["L0"]["reads"]:
+            k = (r["sample"], r["chrom"])
+            serial[k] = serial.get(k, 0) + 1
+            r["name"] = "L0_%s_%d" % (r["sample"], serial[k])
+    return {"machine": "tags", "world": W.clean_world(w), "ops": ops,
+            "knobs": {"depth": depth, "kinds": kinds, "bx_cutoff": bx_cutoff, "shared_names": shared_names}}
 
 
 def render_vstar(world, path, tag, nsets, salt, ps_ids):
@@ -502,5 +513,5 @@ class TagsRun:
                 t = []
                 for k in ("HP", "PS", "PC"):
                     t.append(a.get_tag(k) if a.has_tag(k) else None)
-                out["%s|%d|%d" % (a.query_name, a.flag, a.reference_start)] = t
+                out["%s|%s|%d|%d" % (a.query_name, a.reference_name, a.flag, a.reference_start)] = t
         return out
